@@ -173,7 +173,7 @@ WITNESSES = [
     ("loss of the mean prediction", [(_P, "                losses = [self._loss_function(y_i, prediction) for prediction in predictions]\n                avg_loss = np.mean(losses)\n",
                                       "                avg_loss = self._loss_function(y_i, {k: sum(p[k] for p in predictions) / len(predictions) for k in predictions[0]})\n")]),
     ("sticky per-call n", [(_P, "            if n_inner_samples is None:\n                n_inner_samples = self.n_inner_samples\n", "            if n_inner_samples is not None:\n                self.n_inner_samples = n_inner_samples\n            n_inner_samples = self.n_inner_samples\n")]),
-    ("shared marginal-loss tracker", [(_BASE, "self._marginal_loss_tracker: Tracker = copy.deepcopy(base_tracker)", "self._marginal_loss_tracker: Tracker = base_tracker")]),
+    ("importance and variance share one tracker", [(_BASE, "self._variance_trackers: MultiValueTracker = MultiValueTracker(copy.deepcopy(base_tracker))", "self._variance_trackers: MultiValueTracker = self._importance_trackers")]),
     ("last prediction dropped", [(_P, "for prediction in predictions]", "for prediction in predictions[:-1]]")]),
     ("seen counter += 2", [(_P, "        self.seen_samples += 1\n", "        self.seen_samples += 2\n")]),
 ]
